@@ -2,82 +2,15 @@
 package main
 
 import (
-	"encoding/json"
-	"flag"
-	"fmt"
 	"os"
-	"path/filepath"
-	"strconv"
 
 	"verif/fw"
 	_ "verif/props"
 )
 
-func seedFromEnv() uint64 {
-	if s := os.Getenv("VERIF_SEED"); s != "" {
-		if v, err := strconv.ParseUint(s, 10, 64); err == nil {
-			return v
-		}
-	}
-	return 1
-}
-
 func main() {
-	if len(os.Args) < 2 {
-		fmt.Fprintln(os.Stderr, "usage: vcheck run|worker|replay|list ...")
-		os.Exit(2)
+	if rc := fw.Main(os.Args); rc >= 0 {
+		os.Exit(rc)
 	}
-	switch os.Args[1] {
-	case "list":
-		for _, id := range fw.IDs() {
-			fmt.Println(id)
-		}
-	case "run":
-		fs := flag.NewFlagSet("run", flag.ExitOnError)
-		tier := fs.String("tier", "quick", "")
-		seed := fs.Uint64("seed", seedFromEnv(), "")
-		workers := fs.Int("workers", 0, "")
-		only := fs.Int("case", -1, "")
-		_ = fs.Parse(os.Args[3:])
-		os.Exit(fw.RunDriver(fw.DriverArgs{Prop: os.Args[2], Tier: *tier, Seed: *seed, Workers: *workers, Only: *only}))
-	case "replay":
-		// vcheck replay <dir>: re-run exactly the case recorded in <dir>/case.json
-		b, err := os.ReadFile(filepath.Join(os.Args[2], "case.json"))
-		if err != nil {
-			fmt.Fprintln(os.Stderr, err)
-			os.Exit(2)
-		}
-		var m struct {
-			Property string
-			Seed     uint64
-			Tier     string
-			Case     int
-		}
-		if err := json.Unmarshal(b, &m); err != nil {
-			fmt.Fprintln(os.Stderr, err)
-			os.Exit(2)
-		}
-		if m.Case < 0 {
-			fmt.Println("this violation is not tied to one case (race report); re-run the whole check")
-			os.Exit(2)
-		}
-		os.Exit(fw.RunDriver(fw.DriverArgs{Prop: m.Property, Tier: m.Tier, Seed: m.Seed, Only: m.Case}))
-	case "worker":
-		fs := flag.NewFlagSet("worker", flag.ExitOnError)
-		var a fw.WorkerArgs
-		fs.StringVar(&a.Prop, "prop", "", "")
-		fs.StringVar(&a.Tier, "tier", "quick", "")
-		fs.Uint64Var(&a.Seed, "seed", 1, "")
-		fs.IntVar(&a.Start, "start", 0, "")
-		fs.IntVar(&a.Step, "step", 1, "")
-		fs.IntVar(&a.End, "end", 0, "")
-		fs.StringVar(&a.Journal, "journal", "", "")
-		fs.StringVar(&a.Scratch, "scratch", "", "")
-		fs.IntVar(&a.Timeout, "timeout", 60, "")
-		fs.IntVar(&a.KeepSamples, "keep", 2, "")
-		_ = fs.Parse(os.Args[2:])
-		os.Exit(fw.RunWorker(a))
-	default:
-		extra(os.Args[1:])
-	}
+	extra(os.Args[1:])
 }
